@@ -4,5 +4,6 @@ package podtaskexecutor
 
 var verifHarnesses = map[string]func(){
 	"VerifH_C18_L2_substitution": VerifH_C18_L2_substitution,
+	"VerifH_C18_L2_nestedContext": VerifH_C18_L2_nestedContext,
 	"VerifH_C10_podOutcome": VerifH_C10_podOutcome,
 }
